@@ -573,6 +573,97 @@ fn child_cases(run: &Run, thorough: bool) {
     });
 }
 
+/// Several degenerate or boundary pool requests against one pool in the same block (each harmless alone).
+fn pool_request_combinations(run: &Run, deltas: &[i8]) {
+    let (_w, rootn) = root(NetID::Custom02, 0, true);
+    let scratch = Run::new("scratch", "quick");
+    let eng = Engine::new(&scratch);
+    let open = match eng.step(&rootn, &Action::Open) {
+        StepOut::Next(x) => x,
+        _ => return,
+    };
+    let ms = PoolKey::new(Denom::Mel, Denom::Sym);
+    let liq = ms.liq_token_denom();
+    // a faucet hands out liquidity tokens of the built-in MEL/SYM pool (1e9 recorded) and MEL carriers for the requests
+    let amounts: [u128; 5] = [600_000_000, 600_000_000, 1_000_000_001, 1, 400_000_000];
+    let mut outs: Vec<CoinData> = amounts.iter().map(|a| out_t(*a, liq)).collect();
+    for i in 0..8u128 {
+        outs.push(out_t(1000 + i, Denom::Mel));
+    }
+    for i in 0..4u128 {
+        outs.push(out_t(2000 + i, Denom::Sym));
+    }
+    let f = tx_t(TxKind::Faucet, vec![], outs, 0, b"liq-faucet".to_vec());
+    let base = match eng.step(&open, &Action::Batch { label: "faucet(liquidity tokens of MEL/SYM)".into(), txs: vec![f.clone()], expect_ok: true }) {
+        StepOut::Next(x) => x,
+        _ => return,
+    };
+    let u = match &base.real {
+        Real::Open(u) => u.clone(),
+        _ => return,
+    };
+    let n_liq = amounts.len() as u8;
+    let mut reqs: Vec<(String, Transaction)> = vec![];
+    for (i, a) in amounts.iter().enumerate() {
+        reqs.push((format!("withdraw {}", a), tx_t(TxKind::LiqWithdraw, vec![f.output_coinid(i as u8), f.output_coinid(n_liq + i as u8)], vec![out_t(*a, liq)], 1000 + i as u128, ms.to_bytes().to_vec())));
+    }
+    // swaps on both sides with zero, unit and full values
+    for (j, (side, val)) in [(Denom::Mel, 0u128), (Denom::Mel, 1), (Denom::Sym, 0), (Denom::Sym, 2000)].iter().enumerate() {
+        let (ins, outs) = if *side == Denom::Mel {
+            let id = f.output_coinid(n_liq + 5 + j as u8);
+            let v = 1000 + 5 + j as u128;
+            (vec![id], vec![out_t(*val, Denom::Mel), out_t(v - val, Denom::Mel)])
+        } else {
+            let sid = f.output_coinid(n_liq + 8 + (j as u8 - 2));
+            let sv = 2000 + (j as u128 - 2);
+            let mid = f.output_coinid(n_liq + 5 + j as u8);
+            let mv = 1000 + 5 + j as u128;
+            (vec![sid, mid], vec![out_t(*val, Denom::Sym), out_t(sv - val.min(&sv), Denom::Sym), out_t(mv, Denom::Mel)])
+        };
+        reqs.push((format!("swap {} of {:?}", val, side), tx_t(TxKind::Swap, ins, outs, 0, ms.to_bytes().to_vec())));
+    }
+    // every subset of up to 3 requests in one block
+    let n = reqs.len();
+    let mut subsets: Vec<Vec<usize>> = vec![];
+    for mask in 1u32..(1 << n) {
+        if mask.count_ones() >= 2 && mask.count_ones() <= 3 {
+            subsets.push((0..n).filter(|i| mask & (1 << i) != 0).collect());
+        }
+    }
+    run.states_add(subsets.len() as u64);
+    subsets.par_iter().for_each(|idx| {
+        let label = idx.iter().map(|i| reqs[*i].0.clone()).collect::<Vec<_>>().join(" + ");
+        let batch: Vec<Transaction> = idx.iter().map(|i| reqs[*i].1.clone()).collect();
+        let replay = json!({"base": base.replay_json(None), "requests_in_one_block": label, "txs": batch.iter().map(tx_json).collect::<Vec<_>>()});
+        run.transition();
+        let mut st = u.clone();
+        match watched(&format!("apply_tx_batch:{}", label), &replay, || guard(|| st.apply_tx_batch(&batch))) {
+            Err(p) => run.violation("C09", format!("apply_tx_batch/pool-request-combination/{}", p.class()), format!("[{}]: {}", label, p.msg), replay.clone()),
+            Ok(Err(_)) => run.outcome("combo:rejected"),
+            Ok(Ok(())) => {
+                run.validated();
+                let mut acts: Vec<Option<ProposerAction>> = vec![None];
+                acts.extend(deltas.iter().map(|d| Some(ProposerAction { fee_multiplier_delta: *d, reward_dest: addr_true() })));
+                for act in acts {
+                    run.transition();
+                    match watched(&format!("seal:{}", label), &replay, || guard(|| st.clone().seal(act))) {
+                        Err(p) => {
+                            let kinds = if label.contains("withdraw") && label.contains("swap") { "withdraw+swap" } else if label.contains("withdraw") { "withdrawals" } else { "swaps" };
+                            run.violation("C09", format!("seal/pool-request-combination/{}/{}", kinds, p.class()), format!("seal after [{}] in one block panicked: {}", label, p.msg), replay.clone());
+                        }
+                        Ok(s) => {
+                            run.outcome("combo:sealed");
+                            if let Err(p) = guard(|| s.next_unsealed().seal(None).header()) {
+                                run.violation("C09", format!("next-block/pool-request-combination/{}", p.class()), format!("the block after [{}] panicked: {}", label, p.msg), replay.clone());
+                            }
+                        }
+                    }
+                }
+            }
+        }
+    });
+}
+
 fn confirm_garbage(run: &Run) {
     let mut stakes = BTreeMap::new();
     stakes.insert(melstructs::TxHash(HashVal([1; 32])), melstructs::StakeDoc { pubkey: key(1).0, e_start: 0, e_post_end: 3, syms_staked: CoinValue(u128::MAX / 2) });
@@ -634,6 +725,7 @@ pub fn run(run: &'static Run) {
         }
     }
     run.set("hostile_transactions", json!(total));
+    pool_request_combinations(run, &deltas);
     child_cases(run, thorough);
     confirm_garbage(run);
     run.sample(json!({"hostile": "swap[MEL/SYM:canonical] 0 of Mel", "calls": ["apply_tx_batch alone / before / after a normal transfer", "seal(None)", "seal(Some(-128))", "seal(Some(127))", "next block", "apply_block"], "oracle": "every call returns (Ok or Err) without panic, overflow, abort or exceeding the watchdog"}));
